@@ -24,6 +24,8 @@ MACS = [
     ('two', '00:11:22:33:44:55 and 66:77:88:99:aa:bb', '00:11:22:<REDACTED> and 66:77:88:<REDACTED>'),
     ('five-octets', '01:02:03:04:05', '01:02:03:04:05'),
     ('none', 'plain text', 'plain text'),
+    ('glued', 'dut_f8:8f:ca:01:02:03', 'dut_f8:8f:ca:<REDACTED>'),
+    ('hexprefix', 'id0xAA:BB:CC:DD:EE:FF.', 'id0xAA:BB:CC:<REDACTED>.'),
 ]
 
 
@@ -230,7 +232,9 @@ def part_histories(tier):
   viols = []
   n = 0
   seen = set()
-  modes = ['ok', 'fail', 'raise', 'hang']
+  # ... and runs whose *output* step faults: an output callback raising KeyboardInterrupt / SystemExit (they escape the
+  # per-callback "except Exception"), an unwritable profile file
+  modes = ['ok', 'fail', 'raise', 'hang', 'cb_kbi', 'cb_exit', 'bad_profile']
   depth = 3 if tier == 'quick' else 4
   htf_logger = logging.getLogger('openhtf')
   for hist in itertools.product(modes, repeat=depth):
@@ -254,7 +258,28 @@ def part_histories(tier):
             time.sleep(0.0005)
         return None
       body.__name__ = 'p'
-      res, recs, test, terr = htf.run_test([h.PhaseOptions(name='p')(body)])
+      if mode in ('cb_kbi', 'cb_exit', 'bad_profile'):
+        test = h.Test(h.PhaseOptions(name='p')(body))
+        cap = htf.Capture()
+
+        def faulty(rec, mode=mode):
+          if mode == 'cb_kbi':
+            raise KeyboardInterrupt()
+          if mode == 'cb_exit':
+            raise SystemExit(4)
+
+        test.add_output_callbacks(cap, faulty)
+        try:
+          test.execute(profile_filename='/nonexistent-dir-c19/profile.out' if mode == 'bad_profile' else None)
+        except BaseException:  # pylint: disable=broad-except
+          pass
+        h.Test.HANDLED_SIGINT_ONCE = False
+        recs = cap.records
+        if not recs:
+          # (the profile fault strikes before the callbacks: take the record from the executor's state)
+          continue
+      else:
+        res, recs, test, terr = htf.run_test([h.PhaseOptions(name='p')(body)])
       finished.append((recs[0], len(recs[0].log_records)))
       # logging through the finished run's loggers and the framework logger must not touch finished records
       for lg in loggers:
